@@ -232,9 +232,6 @@ class Collection:
         if len_self == 0:
             only_in_other = only_in_other | set(self._fields.keys())
 
-        if len_other == 0:
-            only_in_self = only_in_self | set(other._fields.keys())
-
         for field_name, field in other._fields.items():
 
             if field_name in only_in_other:
